@@ -154,6 +154,46 @@ def run_coupling(tid, kind, grid, atoms, unit, method, fv, sigma, a, maxlvl):
     return cf.resolve(pos.resolve(t))
 
 
+def coef_fields(ev, cp, pms, lvl, d, cf):
+    """coefficients and drifts of the two components of the copula coupling, and the diffusion increments both get
+    from the same scripted Brownian increments"""
+    sim = cp._path_coupling_simulation
+    ev["zero"] = cf.add(0.0)
+    dmF = np.real(np.asarray(cp._diffusion_matrix_h, dtype=complex))
+    ev["dmF"] = [[cf.add(float(x)) for x in row] for row in dmF]
+    ev["wsF"] = [cf.add(float(sum(dmF[k][j] * (j + 1) for j in range(d)))) for k in range(d)]
+    if cp._diffusion_matrix_2h is not None:
+        dmC = np.real(np.asarray(cp._diffusion_matrix_2h, dtype=complex))
+        ev["dmC"] = [[cf.add(float(x)) for x in row] for row in dmC]
+        ev["wsC"] = [cf.add(float(sum(dmC[k][j] * (j + 1) for j in range(d)))) for k in range(d)]
+    else:
+        ev["dmC"], ev["wsC"] = [], []
+    if pms is not None:
+        dp = pms[-1].deterministic_path
+        v0, v1 = np.array(dp(np.zeros(1)), dtype=float), np.array(dp(np.ones(1)), dtype=float)
+        slope = (v1 - v0)
+        if lvl >= 1:
+            ev["muF"] = [cf.add(float(x)) for x in np.ravel(slope[0])]
+            ev["muC"] = [cf.add(float(x)) for x in np.ravel(slope[1])]
+        else:
+            ev["muF"] = [cf.add(float(x)) for x in np.ravel(slope)]
+            ev["muC"] = []
+    ev["muProc"] = [cf.add(float(x)) for x in np.ravel(cp.fine_process.process_drift())]
+    if lvl >= 1:
+        base = np.array([1.0, 2.0, -4.0])
+        ws = np.array([(k + 1) * base for k in range(d)])
+        cp.fine_process._path_simulation._brownian_increments = deque([ws.copy()])
+        try:
+            df, dc = sim.simulate_diffusion_with_coupling(np.ones(3))
+            cum = np.cumsum(base)
+            ev["diffF"] = [[cf.add(float(df[k][i]) / cum[i]) for i in range(3)] for k in range(d)]
+            ev["diffC"] = [[cf.add(float(dc[k][i]) / cum[i]) for i in range(3)] for k in range(d)]
+        except Exception:
+            ev["diffF"], ev["diffC"] = [], []
+    else:
+        ev["diffF"], ev["diffC"] = [], []
+
+
 def level_event_nd(cp, pms, lvl, uni, d, cf):
     """one level of the REAL Levy-copula coupling on a lattice grid (positions in lattice units, exact integers);
     the coupling map of every fine increment is observed by sweeping the coupling uniform over a lattice"""
@@ -198,38 +238,44 @@ def level_event_nd(cp, pms, lvl, uni, d, cf):
                 outs[t] = outs.get(t, 0) + 1
             moves.append([idx, n, [[list(t), c] for t, c in sorted(outs.items())]])
     ev["moves"], ev["evens"] = moves, evens
-    ev["bad"] = count_bad({"ax": ev["ax"], "bd": ev["bd"]})
-    # coefficients and drifts of the two components
-    ev["zero"] = cf.add(0.0)
-    dmF = np.real(np.asarray(cp._diffusion_matrix_h, dtype=complex))
-    ev["dmF"] = [[cf.add(float(x)) for x in row] for row in dmF]
-    if cp._diffusion_matrix_2h is not None:
-        dmC = np.real(np.asarray(cp._diffusion_matrix_2h, dtype=complex))
-        ev["dmC"] = [[cf.add(float(x)) for x in row] for row in dmC]
-    else:
-        ev["dmC"] = []
-    dp = pms[-1].deterministic_path
-    v0, v1 = np.array(dp(np.zeros(1)), dtype=float), np.array(dp(np.ones(1)), dtype=float)
-    slope = (v1 - v0)
-    if lvl >= 1:
-        ev["muF"] = [cf.add(float(x)) for x in np.ravel(slope[0])]
-        ev["muC"] = [cf.add(float(x)) for x in np.ravel(slope[1])]
-    else:
-        ev["muF"] = [cf.add(float(x)) for x in np.ravel(slope)]
-        ev["muC"] = []
-    ev["muProc"] = [cf.add(float(x)) for x in np.ravel(cp.fine_process.process_drift())]
-    if lvl >= 1:
-        ws = np.array([(k + 1) * np.array([1.0, 2.0, -4.0]) for k in range(d)])
-        cp.fine_process._path_simulation._brownian_increments = deque([ws.copy()])
-        try:
-            df, dc = sim.simulate_diffusion_with_coupling(np.ones(3))
-            cum = np.cumsum(ws, axis=1)
-            ev["diffF"] = [[cf.add(float(df[k][i]) / cum[k][i]) for i in range(3)] for k in range(d)]
-            ev["diffC"] = [[cf.add(float(dc[k][i]) / cum[k][i]) for i in range(3)] for k in range(d)]
-        except Exception:
-            ev["diffF"], ev["diffC"] = [], []
-    else:
-        ev["diffF"], ev["diffC"] = [], []
+    # slices of several jumps: the coupled values of a slice are the running sums of the jumps coupled one by one
+    # (the coupling of a jump is a function of its increment and its own uniform only)
+    slices = []
+    if lvl >= 1 and state_of is not None and moves:
+        import random as _r
+        rr = _r.Random(1000 * lvl + len(moves))
+        cands = [tuple(j - o for j, o in zip(m[0], ev["org"])) for m in moves] + \
+                [tuple(j - o for j, o in zip(e_[0], ev["org"])) for e_ in evens]
+        for _ in range(6):
+            incs = [rr.choice(cands) for _k in range(rr.choice([2, 3, 4]))]
+            us = [rr.choice([0.05, 0.3, 0.55, 0.8, 0.97]) for _k in incs]
+            single = []
+            for inc, u in zip(incs, us):
+                uni.value = u
+                single.append([exact_int(float(v) / U) for v in np.ravel(state_of(tuple(inc)))])
+
+            class SeqU:
+                def __init__(self, vals):
+                    self.vals = list(vals)
+
+                def sample(self, size=1):
+                    return np.array([self.vals.pop(0)])
+
+                def reset_sampling_cost(self):
+                    pass
+            consuming = [u for inc, u in zip(incs, us) if any(v % 2 for v in inc)]
+            cp._uniform = SeqU(consuming)
+            try:
+                vals = sim._coupling_states_for_a_slice([tuple(i) for i in incs])
+                got = [[exact_int(float(v) / U) for v in np.ravel(x)] for x in vals]
+            except Exception as ex:
+                got = [[-77777] * d]
+            finally:
+                cp._uniform = uni
+            slices.append({"single": single, "slice": got})
+    ev["slices"] = slices
+    ev["bad"] = count_bad({"ax": ev["ax"], "bd": ev["bd"], "sl": slices})
+    coef_fields(ev, cp, pms, lvl, d, cf)
     return ev
 
 
@@ -260,6 +306,35 @@ def run_copula_coupling(tid, kind, grid, atoms, d, method, sigmas, a_us, maxlvl)
         import traceback
         ev.append({"e": "Raise", "what": type(ex).__name__ + ": " + str(ex)[:80], "tb": traceback.format_exc()[-600:]})
     return cf.resolve({"tid": tid, "hdr": hdr, "ev": ev})
+
+
+def run_copula_coupling_real(tid, name, model, maxlvl):
+    """REAL copula model with infinite-variation margins: the diffusion matrix of the chain depends on the step, so the
+    coarse matrix must be the one of the previous level (coefficients only; no exact reference for the jump part)"""
+    from rpylib.distribution.sampling import SamplingMethod
+    from rpylib.grid.spatial import CTMCGridGeometric
+    from rpylib.montecarlo.configuration import ConfigurationMultiLevel
+    from rpylib.montecarlo.path import create_path
+    from rpylib.process.coupling.couplinglevycopula import CouplingProcessLevyCopula
+    cf = Pool(rel=1e-9)
+    d = model.dimension()
+    ev = []
+    try:
+        grid = CTMCGridGeometric(h=0.1, model=model, nb_of_points_on_each_side=2)
+        cp = CouplingProcessLevyCopula(levy_copula_model=model, grid=grid, method=SamplingMethod.BINARYSEARCHTREEADAPTED)
+        product = product_for_init()
+        cp.initialisation(product)
+        pms = [create_path(ConfigurationMultiLevel(), cp.fine_process.deterministic_path)]
+        cp.pre_computation(mc_paths=1, product=product)
+        for lvl in range(0, maxlvl + 1):
+            if lvl:
+                cp.next_level(mc_paths=1, path_managers=pms, product=product)
+            e = {"e": "CoefNd", "lvl": lvl}
+            coef_fields(e, cp, pms, lvl, d, cf)
+            ev.append(e)
+    except Exception as ex:
+        ev.append({"e": "Raise", "what": type(ex).__name__ + ": " + str(ex)[:80]})
+    return cf.resolve({"tid": tid, "hdr": {"kind": "copula-real:" + name, "d": d, "atoms": [], "fv": False}, "ev": ev})
 
 
 def run_sde_coupling(tid, grid, atoms, method, fv, sigma, maxlvl):
@@ -368,6 +443,13 @@ def main():
         method = [SamplingMethod.INVERSION, SamplingMethod.BINARYSEARCHTREEADAPTED][rep % 2]
         traces.append(run_copula_coupling(f"cp{len(traces)}", f"copula{d}d-peraxis:" + method.name, grid, atoms, d, method,
                                           [rng.choice([0, 8, 16]) for _ in range(d)], [rng.randint(-9, 9) for _ in range(d)], 1 if d == 3 else 2))
+    # real copula models with infinite-variation margins (step-dependent diffusion matrix)
+    from rpylib.model.utils import ModelType, create_clayton_copula, create_levy_copula_model, create_levy_model
+    iv = {"cgmy12_hem": [create_levy_model(ModelType.CGMY)(c=0.019, g=2, m=4, y=1.2), create_levy_model(ModelType.HEM)()]}
+    if not quick:
+        iv["cgmy11_cgmy13"] = [create_levy_model(ModelType.CGMY)(c=0.05, g=10.0, m=8.0, y=1.1), create_levy_model(ModelType.CGMY)(c=0.02, g=3.0, m=5.0, y=1.3)]
+    for name, margins in iv.items():
+        traces.append(run_copula_coupling_real(f"cp{len(traces)}", name, create_levy_copula_model(margins, create_clayton_copula()), 2))
     # non-lattice grids (the grid's own cell boundary is not the arithmetic mid-point): atoms are placed after the
     # grids of ALL levels have been seen, one in every elementary interval
     from harness.models import levy_models
